@@ -8,7 +8,7 @@ SeedCommands == {1, 2, 6, 10, 12}
 
 Seeds ==
     {[c |-> c, sv |-> ReqMin(c)] : c \in (IF "min" \in SeedKinds THEN SeedCommands ELSE {})}
-    \cup {[c |-> c, sv |-> ReqFull(c, F)] : c \in (IF "full" \in SeedKinds THEN SeedCommands ELSE {})}
+    \cup {[c |-> c, sv |-> ReqRich(c, F)] : c \in (IF "full" \in SeedKinds THEN SeedCommands ELSE {})}
 
 SeedTy(s)   == T_Indexed(CommandTable[s.c].schema)
 SeedTree(s) == ToTree(SeedTy(s), s.sv, F, TRUE)
